@@ -3,6 +3,8 @@ verus! {
 global size_of usize == 8;
 /// T20: the result of a unit handler that was made `async` (Verus keeps an async fn's contract only for a non-unit result)
 pub enum VxDone { Done }
+/// ... and one that carries, as a GHOST value, what the handler's waited future resolved to (None: the handler returned before it)
+pub struct VxOut<T> { pub chain: Ghost<Option<T>> }
 }
 
 #[allow(unused_macros)]
